@@ -571,6 +571,7 @@ class ShortTimeFourierTransformFrameComputer(LinearFilterBankFrameComputer):
             coeffs = np.empty((0, self.num_coeffs), dtype=self._chunk_dtype)
         self._buf_len = 0
         self._hist_len = 0
+        self._chunk_dtype = np.float64
         self._started = False
         self._first_frame = True
         return coeffs
@@ -847,6 +848,7 @@ class ShortIntegrationFrameComputer(LinearFilterBankFrameComputer):
                 coeffs = self.compute_chunk(np.zeros(pad_right, dtype=self._ret_dtype))[
                     :num_frames
                 ]
+        self._ret_dtype = np.float64
         self._started = False
         return coeffs
 
